@@ -431,10 +431,73 @@ def stage_fits(ctx, res, stats, batch):
                         kw=r["kw"], outcome=r["exc"] or "ok"))
 
 
+def stage_infer(ctx, res, stats):
+    """The statement's shape clause through the public entry point: variational_gamma(max_shape=m < 1000) with rescaling on.
+    Every posterior re-fitted by the rescaling step must have shape <= m, and the max_shape seen by the recorded
+    piecewise_scale_posterior calls must be the one the user passed."""
+    import tsdate
+    from .. import dating
+    rng = ctx.rng(5)
+    dating.quiet()
+    done, tries, n_target = 0, 0, ctx.n(10, 120)
+    while done < n_target and tries < 4 * n_target:
+        tries += 1
+        ts, info = gen.gen_ts(rng, n=int(rng.integers(3, 9)), trees=int(rng.choice([1, 2, 4, 8])),
+                              muts_per_edge=float(rng.choice([1, 3, 8])), polytomy=0.15)
+        if ts.num_mutations == 0:
+            continue
+        kw = dict(max_shape=float(rng.choice([1.5, 2.0, 5.0, 20.0, 50.0])), rescaling_intervals=int(rng.choice([1, 5, 100, 1000])),
+                  rescaling_iterations=int(rng.choice([1, 3, 10])), match_segregating_sites=bool(rng.random() < 0.4),
+                  max_iterations=int(rng.choice([1, 2, 5])))
+        replay = dict(kind="infer", ts=gen.ts_to_jsonable(ts), mu=info["mu"], kw=kw)
+        with rc.record_rescale() as calls:
+            try:
+                with np.errstate(all="ignore"):
+                    _, fit = tsdate.variational_gamma(ts, mutation_rate=info["mu"], return_fit=True, **kw)
+                exc = None
+            except BaseException as e:  # noqa: BLE001
+                if isinstance(e, (KeyboardInterrupt, MemoryError)):
+                    raise
+                exc = f"{type(e).__name__}: {str(e)[:80]}"
+        res.evaluations += 1
+        done += 1
+        key = "ok" if exc is None else exc.split(":")[0]
+        stats["infer_outcomes"][key] = stats["infer_outcomes"].get(key, 0) + 1
+        stats["infer_max_shape"][str(kw["max_shape"])] = stats["infer_max_shape"].get(str(kw["max_shape"]), 0) + 1
+        if exc is not None:
+            if exc.startswith("AssertionError"):
+                res.violations.append(Violation("rescale-asserts", f"variational_gamma({kw}) raised {exc}", replay))
+            continue            # other exceptions (e.g. tskit LibraryError after dating) belong to other properties
+        # the argument seen by the rescaling step is the user's
+        seen = sorted({rec["max_shape"] for rec in calls["posterior"]})
+        stats["infer_posterior_calls"] += len(calls["posterior"])
+        if seen and seen != [kw["max_shape"]]:
+            res.violations.append(Violation(
+                "rescale-max-shape-not-forwarded",
+                f"variational_gamma(max_shape={kw['max_shape']}) rescaled its posteriors with max_shape={seen}", replay))
+        # the clause itself, on the public accessors
+        cap = kw["max_shape"] * (1 + 1e-12)
+        for name, post in (("node", fit.node_posteriors()), ("mutation", fit.mutation_posteriors())):
+            mean, var = np.asarray(post["mean"], dtype=float), np.asarray(post["variance"], dtype=float)
+            ok = np.isfinite(mean) & np.isfinite(var) & (var > 0)
+            shape = mean[ok] ** 2 / var[ok]
+            stats["infer_posteriors_checked"] += int(ok.sum())
+            if shape.size and np.any(shape > cap):
+                res.violations.append(Violation(
+                    f"{name}-posterior-shape-above-max-shape",
+                    f"variational_gamma(max_shape={kw['max_shape']}, rescaling_intervals={kw['rescaling_intervals']}, "
+                    f"rescaling_iterations={kw['rescaling_iterations']}): {int(np.sum(shape > cap))} {name} posterior(s) with shape "
+                    f"up to {float(shape.max())!r}", replay))
+        res.nontrivial.add(common.canon_key(dict(kw=kw, n=ts.num_nodes, m=ts.num_mutations, s=info["seed"])))
+    if done:
+        res.sample(dict(kind="variational_gamma(max_shape<1000) + rescaling", last_kw=kw))
+
+
 def new_stats():
     return dict(area_modes={}, hyp_in_range=0, timescale_raised={}, timescale_ok=0, timescale_zero_mass=0, hyp_breaks_strict=0,
                 merged=0, hyp_all_intervals_informative=0, pwl_pre_true=0, pwl_pre_false=0, order_reversed_within_rounding=0, posterior_rows=0,
-                fit_raised={}, rescale_outcomes={}, recorded_calls=0, recover_checked=0)
+                fit_raised={}, rescale_outcomes={}, recorded_calls=0, recover_checked=0, infer_outcomes={}, infer_max_shape={},
+                infer_posterior_calls=0, infer_posteriors_checked=0)
 
 
 def run(ctx):
@@ -450,13 +513,16 @@ def run(ctx):
     for g in stages:
         for _ in g:
             pass
+    stage_infer(ctx, res, stats)
     res.rule = ("B: (times, mutation counts, spans, edges) taken from generated tree sequences (times as is / jittered / tied / "
                 "shuffled / rescaled by 1e-6..1e6; plain and size-biased counts) and small synthetic inputs with ties and "
                 "non-positive edge lengths x max_intervals 1..1000; random strictly increasing break vectors x points incl. 0, every "
                 "break, its float neighbours and points beyond the last break, plus break vectors violating each assertion; "
                 "random gamma posteriors x quantile widths x max_shape; every call made inside real ExpectationPropagation."
                 "rescale() runs (intervals 1..1000 x iterations 1..10 x match_segregating_sites x max_shape). Float model vs numba "
-                "bit-for-bit. C: statement on the real outputs. Non-trivial = at least two epochs / a valid break vector / a "
+                "bit-for-bit. Public variational_gamma(max_shape in {1.5,2,5,20,50}) x rescaling_intervals x rescaling_iterations x "
+                "match_segregating_sites: shape clause on node_posteriors()/mutation_posteriors() and the max_shape seen by the "
+                "rescaling step. C: statement on the real outputs. Non-trivial = at least two epochs / a valid break vector / a "
                 "completed rescale(); distinct by canonical hash of the input.")
     res.extra = dict(input_distribution=stats)
     return res
@@ -521,6 +587,21 @@ def replay(ctx, payload):
         for v in res.violations + res.corr_failures:
             print("  ", v.kind, v.what)
         return not (res.violations or res.corr_failures)
+    if d["kind"] == "infer":
+        import tsdate as _t
+        ts = gen.ts_from_jsonable(d["ts"])
+        with rc.record_rescale() as calls:
+            _, fit = _t.variational_gamma(ts, mutation_rate=d["mu"], return_fit=True, **d["kw"])
+        print("options:", d["kw"])
+        print("max_shape seen by piecewise_scale_posterior:", sorted({r["max_shape"] for r in calls["posterior"]}))
+        ok = True
+        for name, post in (("node", fit.node_posteriors()), ("mutation", fit.mutation_posteriors())):
+            mean, var = np.asarray(post["mean"], dtype=float), np.asarray(post["variance"], dtype=float)
+            m = np.isfinite(mean) & np.isfinite(var) & (var > 0)
+            shape = mean[m] ** 2 / var[m]
+            print(f"largest {name} posterior shape:", float(shape.max()) if shape.size else None)
+            ok = ok and not (shape.size and np.any(shape > d["kw"]["max_shape"] * (1 + 1e-12)))
+        return bool(ok)
     if d["kind"] == "fit":
         ts = gen.ts_from_jsonable(d["ts"])
         fit = rc.make_fit(ts, d["mu"])
